@@ -90,6 +90,11 @@ CHUNKS = {
     # a module-level name that is also spelled as an attribute inside its own module (os.path): files that are both
     # formatted and preserved count their own attribute names as uses
     "attr_twin": "import os\n\npath = os.path.join('etc', 'vk')\nsep = os.sep + str(7000)\n",
+    # class-level and module-level names bound by annotated / augmented assignments whose spelling is not the
+    # conventional one (a renaming rule would fire if the name were not preserved)
+    "class_ann_camel": "class InvoiceLine:\n    unitPrice: float = 0.5\n    MAX_LINES: int = 7000\n    lineTotal: int = 1\n    lineTotal += 2\n",
+    "class_tuple_camel": "class Limits:\n    loValue, hiValue = 1, 7000\n    [firstItem, *otherItems] = [1, 2, 3]\n    chainA = chainB = 5\n",
+    "module_ann_camel": "retryCount: int = 7000\nMaxDepth: int = 3\ntotalSeen = 0\ntotalSeen += 1\n",
     "const_repeat": "A1 = 'some repeated text'\nA2 = 'some repeated text'\nA3 = 'some repeated text'\nA4 = 'some repeated text'\nA5 = 'some repeated text'\n",
 }
 
